@@ -741,7 +741,7 @@ func (f *Frame) execSlice(x *ssa.Slice, st *State, reach Term) Value {
 		}
 		f.safety("slice", desc, reach, tAnd(f.wLe(zero, lo), f.wLe(lo, hi), f.wLe(hi, bound)), x.Pos())
 		if v.Sort == sSl {
-			return f.vc.define("sl", T(sSl, "(mk.Sl (Sl.base %s) (+ (Sl.off %s) %s) (- %s %s) (- (Sl.cap %s) %s))", v.S, v.S, lo.S, hi.S, lo.S, v.S, lo.S))
+			return f.vc.define("sl", T(sSl, "(mk.Sl (Sl.base %s) %s (- %s %s) (- (Sl.cap %s) %s))", v.S, f.subOffset(v, lo), hi.S, lo.S, v.S, lo.S))
 		}
 		return f.subSeq(v, lo, hi)
 	case *types.Pointer: // pointer to array
@@ -818,6 +818,54 @@ func (f *Frame) subSeq(s Term, lo, hi Term) Term {
 	k := Term{"k!q", ws}
 	guard := tAnd(f.wLe(f.wordLit(0), k), f.wLt(k, f.wSub(hi, lo)))
 	f.vc.assumeOwned(r, T(sBool, "(forall ((k!q %s)) (! (=> %s (= %s %s)) :pattern (%s)))", ws, guard.S, f.seqAt(r, k).S, f.seqAt(s, f.wAdd(lo, k)).S, f.seqAt(r, k).S))
+	return r
+}
+
+// subOffset: the offset of the sub-slice v[lo:] in the backing array. For a
+// non-zero lo it is named by a constant, so that quantified clauses over the
+// sub-slice have the clean trigger sl.ix(off', k), and every such term is
+// rewritten into the parent's frame, sl.ix(off, lo + k), where the clauses about
+// the parent slice fire.
+func (f *Frame) subOffset(v Term, lo Term) string {
+	if lo.S == "0" || lo.Sort != sInt || boundVarRE.MatchString(lo.S+" ") || boundVarRE.MatchString(v.S+" ") {
+		if lo.S == "0" {
+			return fmt.Sprintf("(Sl.off %s)", v.S)
+		}
+		return fmt.Sprintf("(+ (Sl.off %s) %s)", v.S, lo.S)
+	}
+	ck := "suboff:" + v.S + ":" + lo.S
+	if c, ok := f.vc.subCache[ck]; ok {
+		return c.S
+	}
+	if f.vc.subCache == nil {
+		f.vc.subCache = map[string]Term{}
+	}
+	off := f.vc.freshConst("off", sInt)
+	f.vc.subCache[ck] = off
+	f.vc.assume(T(sBool, "(= %s (+ (Sl.off %s) %s))", off.S, v.S, lo.S))
+	f.vc.assumeOwned(off, T(sBool, "(forall ((k!q Int)) (! (= (sl.ix %[1]s k!q) (sl.ix (Sl.off %[2]s) (+ %[3]s k!q))) :pattern ((sl.ix %[1]s k!q))))", off.S, v.S, lo.S))
+	return off.S
+}
+
+// seqOfSlice: the sequence of the elements of a heap slice in state st (for
+// specification functions that are stated over sequences).
+func (f *Frame) seqOfSlice(sl Term, elem types.Type, st *State) Term {
+	es := f.vc.sorts.sortOf(elem)
+	srt := f.vc.sorts.seqSort(es)
+	key := f.compKey("E:", sortTag(es), es)
+	comp := st.get(key)
+	ck := "seqof:" + sl.S + ":" + comp.S
+	if c, ok := f.vc.subCache[ck]; ok {
+		return c
+	}
+	if f.vc.subCache == nil {
+		f.vc.subCache = map[string]Term{}
+	}
+	r := f.vc.freshConst("seqof", srt)
+	f.vc.subCache[ck] = r
+	f.vc.assumeOwned(r, T(sBool, "(= (len.%s %s) (Sl.len %s))", srt, r.S, sl.S))
+	f.vc.assumeOwned(r, T(sBool, "(forall ((k!q Int)) (! (=> (and (<= 0 k!q) (< k!q (Sl.len %[3]s))) (= (at.%[1]s %[2]s k!q) (select (select %[4]s (Sl.base %[3]s)) (sl.ix (Sl.off %[3]s) k!q)))) :pattern ((at.%[1]s %[2]s k!q))))",
+		srt, r.S, sl.S, comp.S))
 	return r
 }
 
